@@ -88,12 +88,28 @@ def programs(seed, n, syms=gen.SYMS, tids=None):
                 twin(steps, "reshape", {"newshape": tg[0]}, L, S, "rs")
         if rank >= 1:
             twin(steps, "expand_dims", {"axis": rng.randint(0, rank)}, L, S, "ex")
+        # operations that DELETE blocks while their signs are pending, followed by one that puts blocks back
+        if rank:
+            dax = rng.randrange(rank)
+            cm = x["ix"][dax]["cm"]
+            if len(cm) > 1:
+                keep = [e for k, e in enumerate(cm) if k != rng.randrange(len(cm))]
+                inputs_extra = {"vmiss": {"kind": "vector", "sym": sym, "blocks": [{"c": e["c"], "d": e["d"]} for e in keep],
+                                          "dtype": dtype, "fill": {"start": 2, "step": 1, "alt": False}}}
+                ml, ms = twin(steps, "multiply_diagonal", {"axis": dax}, [lazy, "vmiss"], ["xs", "vmiss"], "mdm")
+                twin(steps, "add", {}, [ml[0], "xs"], [ms[0], "xs"], "mdadd")
+                twin(steps, "add", {}, ["xs", ml[0]], ["xs", ms[0]], "mdadd2")
+            else:
+                inputs_extra = {}
+        else:
+            inputs_extra = {}
         # binary operations with a partner / with itself
         twin(steps, "add", {}, [lazy, lazy], ["xs", "xs"], "ad")
         twin(steps, "add", {}, [lazy, "xs"], ["xs", lazy], "ad2")
         twin(steps, "sub", {}, [lazy, "xs"], ["xs", lazy], "sb")
         twin(steps, "mul", {}, [lazy, lazy], ["xs", "xs"], "ml")
         inputs = {"x0": x}
+        inputs.update(inputs_extra)
         if rank:
             ncon = rng.randint(1, rank)
             b, axes_a, axes_b = partner_for(rng, x, ncon, rng.randint(0, 2), "fermionic", oddpos=rng.randint(5, 8),
